@@ -193,19 +193,19 @@ ExecAttribute(ss, S, ins, nss0, parH) ==
        ELSE
          LET found == PrefixForNs(S, ins.ns)
              (* equals(prefix, attrName, indexOfNSSep) compares only as many characters as the attribute's  *)
-             (* prefix has: "xml" also matches a result prefix "xmlns" (the only such pair that can arise:   *)
-             (* xsl:element may declare xmlns, KD_xmlnsPrefixOnElement)                                     *)
-             samePrefix == found = p \/ (p = "xml" /\ found = "xmlns")
+             (* prefix has; within the prefixes that can be declared in a result tree (xmlns cannot any     *)
+             (* more) no prefix is a proper beginning of another one here                                   *)
+             samePrefix == found = p
          IN IF found # Null /\ found # "" /\ (p = "" \/ samePrefix)
             THEN (* re-use the prefix found for the namespace *)
                  AddResultAttr(S, found, l, ins.v, FALSE)
-            ELSE LET isXmlns == p = "xmlns"
+            ELSE LET isXmlns == p = "xmlns" \/ (p = "xml" /\ ins.ns # XMLNS)         \* prefixes that cannot be declared for this namespace
                      keep == /\ p # "" /\ ~isXmlns
                              /\ ~(LET t == NsForPrefix(S, p) IN t # Null /\ t # ins.ns /\ IsPendingResultPrefix(S, p))
                      U  == Unique(S)
                      np == IF keep THEN p ELSE U.prefix
                      S1 == IF keep THEN S ELSE U.S
-                     S2 == IF keep /\ p = "xml" /\ ins.ns # XMLNS THEN Tag(S1, "xmlPrefixWithOtherNamespace") ELSE S1
+                     S2 == S1
                  IN AddResultAttr(AddNsAttr(S2, np, ins.ns), np, l, ins.v, FALSE)
      ELSE IF S.open /\ ~(p = "" /\ l = "xmlns") THEN
        IF p = "xml" \/ p = "" THEN AddResultAttr(S, p, l, ins.v, FALSE)             \* "starts with xml" / no prefix: added as it is
@@ -357,12 +357,12 @@ ExecElem(ss, src, S, ins, nss0, parH) ==
         p    == ins.p
         ns0  == IF ins.hasNs THEN ins.ns ELSE ""
         own  == IF p = "" THEN Null ELSE GetNamespace(H, p)
-        strip == p # "" /\ own = Null /\ ns0 = "" /\ ins.hasNs                  \* undeclared prefix, empty namespace: generated without the prefix
-        ns   == IF p # "" /\ own # Null /\ ns0 = "" /\ p # "xmlns" THEN own ELSE ns0
+        strip == \/ p # "" /\ own = Null /\ ns0 = "" /\ ins.hasNs              \* undeclared prefix, empty namespace: generated without the prefix
+                 \/ p = "xmlns" /\ ns0 # ""                                   \* xmlns cannot be declared: no prefix, requested namespace
+                 \/ p \notin {"", "xmlns"} /\ own # Null /\ ins.hasNs /\ ns0 = ""  \* empty namespace attribute: no namespace, so no prefix
+        ns   == IF p # "" /\ own # Null /\ ~ins.hasNs /\ p # "xmlns" THEN own ELSE ns0
         np   == IF strip THEN "" ELSE p
-        S0a  == IF p = "xmlns" THEN Tag(S, "xmlnsPrefixOnElement")
-                ELSE IF ins.hasNs /\ ins.ns = "" /\ p # "" /\ own # Null THEN Tag(S, "emptyNamespaceAttributeIgnored")
-                ELSE IF p # "" /\ ~ins.hasNs THEN NsTag(ss, S, own, LookupNss(nss, p), FALSE) ELSE S
+        S0a  == IF p # "" /\ ~ins.hasNs THEN NsTag(ss, S, own, LookupNss(nss, p), FALSE) ELSE S
         S1   == StartElement(S0a, np, ins.l)
         S2   == IF ~ins.hasNs /\ np = "" THEN FixupDefaultNamespace(ss, S1, H, nss)
                 ELSE IF np = "" THEN
@@ -407,15 +407,10 @@ KDFaults(t) ==
     [] t = "aliasAppliedToXslAttribute"   -> {"attribute-name", "attribute-value", "duplicate-expanded-attribute-name"} \cup NotWF
     [] t = "staleExcludedPrefix"          -> {"element-name", "default-namespace-leak", "attribute-name", "attribute-value", "duplicate-expanded-attribute-name",
                                               "excluded-namespace-declared", "alias-stylesheet-namespace-declared"} \cup NotWF
-    [] t = "xmlPrefixWithOtherNamespace"  -> {"attribute-name", "attribute-value"}
-    [] t = "xmlnsPrefixOnElement"         -> {"xmlns-prefix-declared", "xmlns-used-as-prefix", "xmlns-namespace-declared", "element-name",
-                                              "attribute-name", "attribute-value", "duplicate-attribute-qname"} \cup NotWF
-    [] t = "emptyNamespaceAttributeIgnored" -> {"element-name"}
     [] t = "literalAttributePrefixRebound" -> {"attribute-name", "attribute-value", "duplicate-expanded-attribute-name"} \cup NotWF
     [] t = "defaultDeclarationIsLiteralAttribute" -> {"excluded-namespace-declared", "alias-stylesheet-namespace-declared", "element-name"}
     [] OTHER -> {}
 KDTags == {"staleExcludedPrefix", "attrListKeyedByQName", "copiedAttributeNotFixedUp", "aliasAppliedToXslAttribute",
-           "xmlPrefixWithOtherNamespace", "xmlnsPrefixOnElement", "emptyNamespaceAttributeIgnored",
            "defaultDeclarationIsLiteralAttribute", "literalAttributePrefixRebound"}
 Explained(tags) == UNION {KDFaults(t) : t \in tags}
 =============================================================================
